@@ -27,8 +27,8 @@ static std::string seed_xml(bool triangulate, double lmin) {
     o << "</face_types>\n</cell_type>\n</cell_types>\n"; return o.str(); }
 
 // ------------------------------------------------------------------------------------------------ fault generation
-struct Case { int seedset; std::string file; std::string kind; std::string where; std::string vtk, xml; };
-static const char* MENU[] = {"-1", "0", "4294967295", "99999999999999999999", "abc", "1e999", "nan", "3.5"};
+struct Case { int seedset; std::string file; std::string kind; std::string where; std::string vtk, xml; bool valid_geometry_edit = false; };
+static const char* MENU[] = {"-1", "0", "99", "4294967295", "99999999999999999999", "abc", "1e999", "nan", "3.5"};
 
 struct TokSpan { size_t b, e; };
 static std::vector<TokSpan> tokens_of(const std::string& s, size_t from) { std::vector<TokSpan> t; size_t i = from; while (i < s.size()) { while (i < s.size() && isspace((unsigned char)s[i])) i++; if (i >= s.size()) break; size_t j = i; while (j < s.size() && !isspace((unsigned char)s[j])) j++; t.push_back({i, j}); i = j; } return t; }
@@ -39,7 +39,10 @@ static void gen_vtk_faults(int seedset, const std::string& vtk, const std::strin
     size_t body = 0; for (int k = 0; k < 4; k++) body = vtk.find('\n', body) + 1;    // the four header lines are free text except the version line
     auto toks = tokens_of(vtk, 0);
     for (size_t ti = 0; ti < toks.size(); ti += token_stride) { const TokSpan& t = toks[ti]; std::string sec = t.b < body ? "header" : section_at(vtk, t.b); std::string w = sec + "#" + std::to_string(ti);
-        auto mut = [&](const std::string& kind, const std::string& repl, bool del) { Case c; c.seedset = seedset; c.file = "vtk"; c.kind = kind; c.where = sec; c.xml = xml; c.vtk = vtk.substr(0, t.b) + (del ? "" : repl) + vtk.substr(t.e); out.push_back(c); };
+        // replacing a point COORDINATE by another finite number yields a well-formed file describing a (possibly huge, spiky) valid geometry
+        bool coord_token = false; if (sec == "POINTS") { size_t kw = vtk.rfind("POINTS", t.b); auto after = tokens_of(vtk.substr(kw, t.b - kw), 0); coord_token = after.size() >= 3; }
+        auto mut = [&](const std::string& kind, const std::string& repl, bool del) { Case c; c.seedset = seedset; c.file = "vtk"; c.kind = kind; c.where = sec; c.xml = xml; c.vtk = vtk.substr(0, t.b) + (del ? "" : repl) + vtk.substr(t.e);
+            if (coord_token && !del) { char* e; double v = strtod(repl.c_str(), &e); c.valid_geometry_edit = (*e == 0 && std::isfinite(v)); } out.push_back(c); };
         mut("token-deleted", "", true); mut("token-duplicated", vtk.substr(t.b, t.e - t.b) + " " + vtk.substr(t.b, t.e - t.b), false);
         for (const char* m : MENU) mut(std::string("token-replaced-by-") + m, m, false); }
     // keyword lines: remove / duplicate / move to the end
@@ -121,6 +124,7 @@ static void explore(Result& R) {
     const int PAR = 16; std::vector<Running> running; size_t next = 0; long done = 0;
     auto finish = [&](const Running& r, int status, bool to) { const Case& c = cases[r.idx]; Outcome o = classify(status, to, r.dir); outcomes[o.cls.substr(0, o.cls.find(':') == std::string::npos ? o.cls.size() : (o.cls.rfind("sanitizer", 0) == 0 ? o.cls.size() : o.cls.find(':')))]++; done++;
         if (o.cls == "reported") msgs[o.detail.substr(0, 70)]++;
+        if (c.valid_geometry_edit && (o.cls == "hang" || o.cls == "memory-blow-up")) { o.cls = "startup-completed"; o.detail = "not judged: well-formed file whose geometry (a coordinate replaced by another finite number) makes the triangulation legitimately expensive"; }
         bool bad = !(o.cls == "completed" || o.cls == "reported" || o.cls == "startup-completed"); if (o.cls == "startup-completed") R.tables["after_startup"][o.detail]++; if (c.kind == "valid-seed" && o.cls != "completed" && o.cls != "startup-completed") { bad = true; o.detail = "a valid seed file did not complete: " + o.cls + " " + o.detail; }
         if (bad) R.violation(case_key(c, o), "file " + c.file + ", fault " + c.kind + " at " + c.where + " (seed set " + std::to_string(c.seedset) + "): outcome " + o.cls + " " + o.detail, "vtk=" + esc_nl(c.vtk) + "\nxml=" + esc_nl(c.xml) + "\n");
         if (done % 700 == 1) R.sample("{\"file\":\"" + c.file + "\",\"fault\":\"" + c.kind + "\",\"where\":\"" + c.where + "\",\"outcome\":\"" + o.cls + "\"}");
@@ -135,8 +139,8 @@ static void explore(Result& R) {
         if (!any) usleep(3000); }
     std::error_code ec; fs::remove_all(g_root, ec);
     R["evaluations"] = done; R["states"] = done; R["transitions"] = done; R["distinct_nontrivial"] = (long)msgs.size() + 2; R["traces_validated_against_impl"] = done; R["cases_generated"] = (long)cases.size(); R["unsafe_skipped"] = unsafe; R["distinct_validation_messages_reached"] = (long)msgs.size();
-    R.strings["rule"] = "a case = one valid seed (two-octahedra VTK + XML; quad-cube VTK + XML with initial triangulation) with 0 or 1 deviation from the complete alphabet {every token (of the polygonal seed: every third token in the quick tier) deleted / duplicated / replaced by each of -1, 0, 4294967295, 99999999999999999999, abc, 1e999, nan, 3.5; every keyword line removed / duplicated / moved to the end; truncation at every 8th (thorough: every) byte; every XML element removed / duplicated / renamed / emptied / self-closed / text replaced by each menu value} (thorough: pairs over a reduced alphabet); each case runs the real main binary (ASan+UBSan) in its own directory; distinct_nontrivial = number of distinct diagnostics reached + the two valid seeds";
-    R.assumptions = {"acceptable outcomes: exit 0, or exit 1 with the message of a std::exception printed by main, or start-up completed (the solver announced its output folder) whatever the accepted parameters then do to the run; anything else (signal, std::terminate, sanitizer report, > 40 s wall / 20 s CPU, > 1 GiB resident before start-up completes) is a violation", "mutated output-folder values are checked to stay inside the private directory before launch (unsafe_skipped counts the ones skipped)"};
+    R.strings["rule"] = "a case = one valid seed (two-octahedra VTK + XML; quad-cube VTK + XML with initial triangulation) with 0 or 1 deviation from the complete alphabet {every token (of the polygonal seed: every third token in the quick tier) deleted / duplicated / replaced by each of -1, 0, 99, 4294967295, 99999999999999999999, abc, 1e999, nan, 3.5; every keyword line removed / duplicated / moved to the end; truncation at every 8th (thorough: every) byte; every XML element removed / duplicated / renamed / emptied / self-closed / text replaced by each menu value} (thorough: pairs over a reduced alphabet); each case runs the real main binary (ASan+UBSan) in its own directory; distinct_nontrivial = number of distinct diagnostics reached + the two valid seeds";
+    R.assumptions = {"acceptable outcomes: exit 0, or exit 1 with the message of a std::exception printed by main, or start-up completed (the solver announced its output folder) whatever the accepted parameters then do to the run; anything else (signal, std::terminate, sanitizer report, > 40 s wall / 20 s CPU, > 1 GiB resident before start-up completes) is a violation", "a point coordinate replaced by another finite number gives a well-formed file with a valid (possibly huge) geometry: time/memory limits are not judged for those cases, crashes and sanitizer reports are", "mutated output-folder values are checked to stay inside the private directory before launch (unsafe_skipped counts the ones skipped)"};
 }
 static int replay(const Replay& rp, Result& R) { Case c; c.vtk = unesc_nl(rp.get("vtk")); c.xml = unesc_nl(rp.get("xml")); if (!output_path_is_safe(c.xml)) { printf("unsafe output path, not run\n"); return 0; } std::string dir = "build/run/C17-replay-" + std::to_string(getpid()); fs::create_directories(dir); dir = fs::absolute(dir).string(); Outcome o = run_one(c, dir); printf("outcome: %s %s\n", o.cls.c_str(), o.detail.c_str());
     { std::ifstream f(dir + "/stderr.txt"); std::string l; int n = 0; while (std::getline(f, l) && n++ < 25) printf("  | %s\n", l.c_str()); } std::error_code ec; fs::remove_all(dir, ec); if (!(o.cls == "completed" || o.cls == "reported" || o.cls == "startup-completed")) { R.violation(o.cls, o.detail, ""); return 1; } return 0; }
